@@ -103,10 +103,35 @@ def run(tier, seed, drv):
                             if n_at_t0 < m_at_t0:
                                 res.violate(V("start-order-dependent", f"{who}: {m_at_t0} updates at the initial time when all start together, {n_at_t0} when the scheduler starts {late} steps late (early interrupt not served by its own tick)",
                                               site="early-interrupt", comp=who), case)
+    # an interrupt of a device INSIDE a system simulation a few loop steps after the start, for combinations of start
+    # delays of the master and of the system component: it may land before, inside or after the system's own initial
+    # tick; it must be served (the run proceeds as if all had started together).  The configuration is one in which
+    # nothing asks for a callback: a lost interrupt is not covered up by an unrelated later tick of the system.
+    quiet = {"components": [{"name": "qsys", "kind": "sys", "inputs": {}, "expose": {"y": ["qin", "o"]},
+                             "components": [dev("qin"), dev("qdown", {"i": ["qin", "o"]})]},
+                            dev("qsink", {"i": ["qsys", "y"]})], "n_ticks": 2}
+    for ci, scn in [(len(configs()), quiet)]:
+        for sysc in [c for c in scn["components"] if c["kind"] == "sys"]:
+            inner = [d["name"] for d in sysc["components"] if d["kind"] == "dev"][:2]
+            md_vals, sd_vals = ((0, 2, 5), (0, 3, 6)) if tier == "quick" else ((0, 1, 2, 3, 5, 6), (0, 1, 2, 3, 4, 6))
+            for md, sdl, step, who in itertools.product(md_vals, sd_vals, range(1, 13 if tier == "quick" else 22), inner):
+                s2 = dict(copy.deepcopy(scn), start_delays={"": md, sysc["name"]: sdl}, stims=[{"step": 1 + step, "comp": who}], n_ticks=2)
+                run_ = run_scenario(s2, bus="sync")
+                case = {"scenario": s2, "bus": "sync", "inner_early_interrupt": True}
+                raised = [e for e in run_["trace"].of("raise") if e.get("ok")]
+                res.case(f"{ci}:inner-early:{md}:{sdl}:{step}:{who}", nontrivial=bool(raised))
+                res.count("inner-early-interrupt" if raised else "inner-early-interrupt-not-raised")
+                n = SC.check_run(s2, run_, drv, res, monitors_on=("ticker", "tick_times"), corr=("ticker",), case_extra=case)
+                if n == 0 and raised:
+                    ups = [u for u in run_["trace"].of("update") if u["comp"] == who and u["n"] > raised[0]["n"]]
+                    if not ups:
+                        res.violate(V("early-interrupt-lost", f"{who} (inside {sysc['name']}) raised an interrupt at loop step {1 + step} with start delays master={md} "
+                                      f"{sysc['name']}={sdl} and was never updated afterwards", site="early-interrupt", comp=who, inner=True), case)
     res.rule = (f"2 configurations (3-device diamond-ish chain; source -> system(2 inner devices) -> sink); every assignment of start delays 0..{maxd} loop "
                 "steps to the master and each top-level component" + (" (sampled to ~90 vectors per configuration in the quick tier, extremes always included)" if tier == "quick" else "") +
                 ", under internal-bus semantics and a delaying bus; plus interrupts raised at each step before a scheduler that starts 2.." + str(maxd + 2) +
-                " steps late; non-trivial = some delay is non-zero / the early interrupt was raised")
+                " steps late; plus interrupts of devices inside the system simulation at each of the first loop steps for combinations of master and system "
+                "start delays; non-trivial = some delay is non-zero / the early interrupt was raised")
     return res
 
 
